@@ -109,7 +109,7 @@ def _worker_shape(args):
             if v == 'proved' and undecided_shape:
                 v = 'undecided'       # some paths were not explored: the clause is not proved
             res['clauses'][name] = {'verdict': v, 'paths': cr.paths, 'unsat': cr.unsat, 'unknown': cr.unknown,
-                                    'sat': len(cr.sat)}
+                                    'sat': len(cr.sat), 'cvc5': getattr(cr, 'cvc5', 0)}
             if cr.sat:
                 any_refuted = True
                 for (pi, vals, detail) in cr.sat[:2]:
@@ -447,8 +447,10 @@ def aggregate(prop, tier, seed, results, t_start, write_baseline, extra_mod, qui
         reproduced = [x for x in r['replays'] if x.get('reproduced')]
         for clause, cv in r['clauses'].items():
             oid = obligation_id(prop, q, shp, clause)
-            ob = {'id': oid, 'verdict': cv['verdict'], 'backend': 'z3', 'seconds': r['seconds'], 'kind': r['contract_kind'],
-                  'paths': cv['paths'], 'counted': bool(r.get('stable', True))}
+            ob = {'id': oid, 'verdict': cv['verdict'], 'backend': 'z3+cvc5' if cv.get('cvc5') else 'z3', 'seconds': r['seconds'],
+                  'kind': r['contract_kind'], 'paths': cv['paths'], 'counted': bool(r.get('stable', True))}
+            if cv.get('cvc5'):
+                ob['paths_discharged_by_cvc5'] = cv['cvc5']
             if cv['verdict'] == 'undecided':
                 ob['reason'] = '; '.join(st['unsupported'][:2]) or ('bounded loop unrolling' if st['bounded'] else 'solver unknown')
             obligations.append(ob)
@@ -617,6 +619,7 @@ def aggregate(prop, tier, seed, results, t_start, write_baseline, extra_mod, qui
             'bounded': bounded_list[:200],
             'known_findings_hit': sorted(hit),
             'backends': {'z3': sum(1 for o in obligations if o.get('backend') == 'z3'),
+                         'z3+cvc5 (z3 unknown on some path, cvc5 1.0.3 proved it)': sum(1 for o in obligations if o.get('backend') == 'z3+cvc5'),
                          'enum': sum(1 for o in obligations if o.get('backend') == 'enum'),
                          'static': sum(1 for o in obligations if o.get('backend') == 'static')},
             'solver_calls': solver_calls, 'solver_seconds_total': round(solver_seconds, 2),
